@@ -46,8 +46,9 @@ MANIFEST = dict(
     technique="Coq forward-simulation proof (fuel induction, frame-generic invariant) + three-way model/implementation correspondence by vm_compute",
 )
 
-THEOREMS = ["C09_compile_correct", "C09_compile_correct_static", "C09_no_stuck_partial", "C09_no_stuck_on_error_partial", "C09_errors_partial", "C09_expr_simulation", "C09_list_order", "C09_arg_order",
-            "C09_string_order", "C09_field_order", "C09_innermost_binding", "C09_funref_refuted"]
+THEOREMS = ["C09_compile_correct", "C09_no_stuck_partial", "C09_no_stuck_on_error_partial", "C09_errors_partial",
+            "C09_expr_simulation", "C09_list_order", "C09_arg_order", "C09_string_order", "C09_field_order",
+            "C09_innermost_binding"]
 ALLOWED_AXIOMS = []
 FRAGMENT_OPCODES = ["LoadConstant", "GetLocal", "GetUpvalue", "GetLastResult", "Negate", "LogicalNeg", "Factorial",
                     "Add", "Subtract", "Multiply", "Divide", "Power", "LessThan", "GreaterThan", "LessOrEqual",
@@ -929,9 +930,9 @@ def classify(impl_line, model_str):
     if model_str == "@@MODEL-TIMEOUT":
         return "model-timeout", "the model evaluation of this case did not finish"
     parts = model_str.split(" || ")
-    if len(parts) != 4:
+    if len(parts) != 3:
         return "model-machine", "unparsable model output"
-    m, s, k, d = parts
+    m, s, d = parts
     if BIG.search(model_str) or BIG.search(impl_line) or "e+" in impl_line.split(" ## D:")[0]:
         return "overflow", ""
     if io.startswith("R:T:"):
@@ -952,10 +953,6 @@ def classify(impl_line, model_str):
     if ok_m and ok_s and ok_d:
         return "ok", ""
     hang = io.startswith("R:@@")
-    if k == "R:S" and not ok_s and (ok_m or (hang and m == "R:F")):
-        # a stale function value is called; the faithful machine predicts the implementation's
-        # behaviour (same result, or non-termination: machine out of fuel, implementation hangs)
-        return "known-funref", "implementation %s, source semantics %s" % (io, s)
     if m == "R:F" and not hang:
         return "fuel", "model machine out of fuel"
     if not ok_s and io != "R:P" and not hang:
@@ -976,7 +973,7 @@ def evaluate(binary, cases, tag):
     for n, (s, c) in enumerate(cases):
         io, idump = impl_obs(impl[n])
         hang = io.startswith("R:@@")
-        items.append((coq_case(c, FUEL_MACH_HANG if hang else None), "%s || %s || %s || %s" % (io, io, io, idump)))
+        items.append((coq_case(c, FUEL_MACH_HANG if hang else None), "%s || %s || %s" % (io, io, idump)))
     bad = safe_mismatches(["VM.Value", "VM.Ast", "VM.Bytecode", "VM.Compile", "VM.Machine", "VM.RefSem", "VM.Exec"],
                           items, tag)
     out = []
